@@ -251,3 +251,8 @@ impl ics23::HostFunctionsProvider for Sha256Provider {
         [0; 32]
     }
 }
+
+#[cfg(all(test, lumina_verif))]
+mod verif_native {
+    include!(concat!(env!("LUMINA_VERIF_DIR"), "/native/grpc/abci.rs"));
+}
